@@ -56,6 +56,12 @@ type C11Case struct {
 	// Pad: header_extra_padding_block (merged values are written with an 8-byte zero extension block, also
 	// into shadow DBIs): the extension is not part of the application's value
 	Pad bool `json:"pad,omitempty"`
+	// CaptureOnly: the history consists of application changes and capture passes only. Live empty values
+	// are then part of the domain: the listed known finding is about the copy-back of a merge, the capture
+	// of an empty value (insert or overwrite) as a live version is not affected by it.
+	CaptureOnly bool `json:"capture_only,omitempty"`
+	// Sweeper: sweeper.enabled is set (retention 370 days): every merge gets a stale-marker cutoff
+	Sweeper bool `json:"sweeper,omitempty"`
 }
 
 var c11DBINames = []string{"alpha", "beta", "gamma"}
@@ -74,12 +80,18 @@ func c11Key(kind string, idx int) []byte {
 }
 
 func newShadowSyncer(env *lmdb.Env, inst string, lc config.LMDB) (*syncer.Syncer, *memory.Backend) {
+	return newShadowSyncerSw(env, inst, lc, false)
+}
+
+// newShadowSyncerSw: with the tomb sweeper enabled or disabled in the configuration (it never runs here; the
+// setting changes the stale-marker cutoff handed to every merge).
+func newShadowSyncerSw(env *lmdb.Env, inst string, lc config.LMDB, sweeperEnabled bool) (*syncer.Syncer, *memory.Backend) {
 	st := memory.New()
 	conf := config.Config{Instance: inst, StorageRetryCount: 1, StorageRetryInterval: time.Millisecond,
 		LMDBPollInterval: time.Millisecond, StoragePollInterval: time.Millisecond,
 		MemoryDownloadedSnapshots: 2, MemoryDecompressedSnapshots: 2,
 		// shipped defaults: sweeper disabled, with its parameters set
-		Sweeper: config.Sweeper{Enabled: false, RetentionDays: 370, Interval: 6 * time.Hour, FirstInterval: 10 * time.Minute,
+		Sweeper: config.Sweeper{Enabled: sweeperEnabled, RetentionDays: 370, Interval: 6 * time.Hour, FirstInterval: 10 * time.Minute,
 			LockDuration: 50 * time.Millisecond, ReleaseDuration: 50 * time.Millisecond}}
 	s, err := syncer.New("db", env, st, conf, lc, syncer.Options{})
 	if err != nil {
@@ -202,7 +214,7 @@ const tsPending = ^uint64(0) - 12345
 func checkC11(c C11Case, o *vcore.Obs) error {
 	env := lm.New(32<<20, 16)
 	defer env.Close()
-	s, _ := newShadowSyncer(env.Env, "a", config.LMDB{SchemaTracksChanges: false, HeaderExtraPaddingBlock: c.Pad})
+	s, _ := newShadowSyncerSw(env.Env, "a", config.LMDB{SchemaTracksChanges: false, HeaderExtraPaddingBlock: c.Pad}, c.Sweeper)
 	ctx := context.Background()
 	m := model.NewMirror()
 	clock := uint64(1000) // drive a: logical clock, captures take even values
@@ -212,6 +224,7 @@ func checkC11(c C11Case, o *vcore.Obs) error {
 	nt := false
 	remoteBetween := false
 	captures := 0
+	staleSkipped := 0
 
 	capture := func() error {
 		clock += 2
@@ -376,7 +389,15 @@ func checkC11(c C11Case, o *vcore.Obs) error {
 				uncaptured = false
 				captures++
 			}
+			staleBefore := uint64(time.Now().Add(-367 * 24 * time.Hour).UnixNano())
 			for _, it := range items {
+				if c.Sweeper && it.v.Del && it.v.TS < staleBefore && !m.HasShadowEntry(it.name, it.key) {
+					// with the sweeper enabled a deletion marker older than the retention is not created for a key
+					// the instance has no entry for (by design, C04); the DBI itself is still created
+					m.EnsureDBI(it.name, it.kind)
+					staleSkipped++
+					continue
+				}
 				m.MergeRemote(it.name, it.kind, it.key, it.v, lsTxn)
 			}
 			m.Project()
@@ -406,6 +427,9 @@ func checkC11(c C11Case, o *vcore.Obs) error {
 	o.NonTrivial(nt && captures >= 2)
 	o.Class("drive-" + c.Drive)
 	o.ClassIf(c.Pad, "header-padding-option")
+	o.ClassIf(c.Sweeper, "sweeper-enabled-in-configuration")
+	o.ClassIf(staleSkipped > 0, "stale-remote-marker-for-an-unknown-key-not-created")
+	o.ClassIf(c.CaptureOnly, "capture-only-history-with-live-empty-values")
 	for _, k := range c.Kinds {
 		o.Class("kind-" + k)
 	}
@@ -450,13 +474,16 @@ func genC11(t *rapid.T) C11Case {
 	var c C11Case
 	c.Drive = rapid.SampledFrom([]string{"a", "a", "a", "b"}).Draw(t, "drive")
 	c.Pad = rapid.IntRange(0, 4).Draw(t, "pad") == 0
+	c.Sweeper = rapid.IntRange(0, 2).Draw(t, "sweeper") == 0
+	c.CaptureOnly = rapid.IntRange(0, 3).Draw(t, "capture_only") == 0
+	c.AllowEmpty = c.CaptureOnly
 	nd := rapid.IntRange(1, 3).Draw(t, "ndbi")
 	for i := 0; i < nd; i++ {
 		c.Kinds = append(c.Kinds, rapid.SampledFrom([]string{"plain", "plain", "int4", "int8"}).Draw(t, "kind"))
 	}
 	genVal := func(label string) model.Bytes {
 		v := rapid.SampledFrom([]model.Bytes{[]byte("v1"), []byte("v2"), []byte("x"), {0}, {}, []byte("a longer value \x00 with zero"), bytes.Repeat([]byte{'L'}, 2000)}).Draw(t, label)
-		if len(v) == 0 {
+		if len(v) == 0 && !c.CaptureOnly {
 			c.ExcludedEmpty++ // known finding: live empty values in shadow mode
 			v = []byte("e")
 		}
@@ -466,6 +493,9 @@ func genC11(t *rapid.T) C11Case {
 	for i := 0; i < nops; i++ {
 		var op C11Op
 		op.Kind = rapid.SampledFrom([]string{"app", "app", "capture", "remote"}).Draw(t, "op")
+		if c.CaptureOnly && op.Kind == "remote" {
+			op.Kind = "capture"
+		}
 		switch op.Kind {
 		case "app":
 			n := rapid.IntRange(1, 5).Draw(t, "nch")
@@ -494,8 +524,8 @@ func genC11(t *rapid.T) C11Case {
 }
 
 func TestC11Mirror(t *testing.T) {
-	vcore.Run(t, vcore.Config{Property: "C11",
-		Rule: "rapid histories over 1-3 application DBIs (plain / MDB_INTEGERKEY 4 / 8 bytes incl. key 0): application change sets (put/overwrite/same-value/delete/new DBI), captures (drive a: VerifMainToShadow with generated increasing timestamps; drive b: SendOnce/LoadOnce with bracketed wall-clock stamps), remote snapshots (older/newer versions, markers, new DBIs) merged through LoadOnce; after every step application DBIs and shadow DBIs equal the map-based mirror model byte for byte; " +
+	vcore.Run(t, vcore.Config{Property: "C11", Inflight: true,
+		Rule: "rapid histories over 1-3 application DBIs (plain / MDB_INTEGERKEY 4 / 8 bytes incl. key 0): application change sets (put/overwrite/same-value/delete/new DBI), captures (drive a: VerifMainToShadow with generated increasing timestamps; drive b: SendOnce/LoadOnce with bracketed wall-clock stamps), remote snapshots (older/newer versions, markers, new DBIs) merged through LoadOnce, a quarter of the histories without merges and then WITH live empty values (inserted / overwriting), a third with sweeper.enabled, a fifth with the padding option; after every step application DBIs and shadow DBIs equal the map-based mirror model byte for byte; " +
 			"non-trivial = a step with >=1 changed and >=1 unchanged key and >=2 captures"},
 		genC11, checkC11)
 }
